@@ -55,7 +55,8 @@ theorem insert_new (c : ClusterCtx t z qt ka) (r : Nat) (hnot : ¬ Abs t z qt (p
     (hn : t.n ≠ N) (hfree : ∃ e, e < N ∧ (t.at z e).used = false) :
     ∃ tf qt', insertInternal t (pos z ka) r = some (tf, .ok true) ∧ tf.n = t.n + 1 ∧
       LInv tf z qt' ∧
-      ∀ a' r', Abs tf z qt' a' r' ↔ (Abs t z qt a' r' ∨ (a' = pos z ka ∧ r' = r)) := by
+      (∀ a' r', Abs tf z qt' a' r' ↔ (Abs t z qt a' r' ∨ (a' = pos z ka ∧ r' = r))) ∧
+      ∃ sr, scan t (pos z ka) r true = some sr ∧ (tf.get sr.position).rem = r := by
   have h := c.inv
   have hka := c.hka
   obtain ⟨sr, hscan, hpres, hins⟩ := scan_spec c r true
@@ -162,6 +163,6 @@ theorem insert_new (c : ClusterCtx t z qt ka) (r : Nat) (hnot : ¬ Abs t z qt (p
         unfold insQt
         rw [if_neg (by omega), if_neg (by omega), if_pos (by omega)]
         rfl
-    exact ⟨D.linv, D.abs⟩
+    exact ⟨D.linv, D.abs, sr, hscan, by rw [IP.pos_eq]; exact D.at_kp_rem⟩
 
 end Pds.Quotient
